@@ -16,6 +16,7 @@ mod gen;
 mod io;
 mod keys;
 mod props;
+mod sigrec;
 
 use ctx::{Ctx, Tier};
 
